@@ -1,9 +1,11 @@
 (* Extraction of the executable C20 model (ExtrOcamlBasic only). *)
 From Coq Require Import ExtrOcamlBasic.
 From Coq Require Extraction.
-From LJT Require Import gen.GenSubsamp model.Geometry model.YuvCopy.
+From LJT Require Import gen.GenSubsamp model.Geometry model.YuvCopy model.RawData.
 Extraction Language OCaml.
 Extraction "x_c20.ml" tj3YUVPlaneWidth tj3YUVPlaneHeight tj3YUVBufSize tj3YUVPlaneSize unified_layout
   unified_fns scaled_dim sf_tbl tjMCUWidth_tbl tjMCUHeight_tbl cfp_plane_w cfp_plane_h enc_plane_w enc_plane_h
   dec_plane_w dec_plane_h dtp_dctsize getSubsamp3
-  enc_access dec_access dtp_access cfp_access dtp_usetmpbuf cfp_usetmpbuf dtp_tmp_geom lj_wib lj_hib lj_out.
+  enc_access dec_access dtp_access cfp_access dtp_usetmpbuf cfp_usetmpbuf dtp_tmp_geom lj_wib lj_hib lj_out
+  ljg_wib ljg_hib ljg_imcu_rows ljg_rows_in_call ljg_min_dct ljg_out_w ljg_out_h dtp_protocol cfp_protocol cfp_iteration_ok
+  cfp_plane_w cfp_plane_h cfp_iw cfp_ih cfp_th cfp_crow lj_vs comp_vsamp0 cfp_loopstep.
